@@ -1,6 +1,6 @@
 import OpusModel.SilkPlcConcealFix
 /-
-  OpusModel.SilkPlcGlue — bit-exact value model of silk_PLC_glue_frames (silk/PLC.c:432-497): the energy of the
+  OpusModel.SilkPlcGlue — bit-exact value model of silk_PLC_glue_frames (silk/PLC.c:433-493): the energy of the
   concealed frame is remembered; the first good frame after a loss is faded in from
   sqrt(concealed energy / decoded energy) with a 4x steeper slope.
 -/
@@ -15,7 +15,7 @@ structure GlueSt where
   concEnergyShift : Int
   deriving DecidableEq, Repr
 
-/-- The per-sample ramp PLC.c:485-491: `frame[i] = silk_SMULWB( gain_Q16, frame[i] )` (stored into an
+/-- The per-sample ramp PLC.c:481-487: `frame[i] = silk_SMULWB( gain_Q16, frame[i] )` (stored into an
     `opus_int16`), `gain_Q16 += slope_Q16`, stop once `gain_Q16 > 1 << 16`. -/
 def glueRamp (slope : Int) : List Int → Int → List Int
   | [], _ => []
@@ -23,16 +23,16 @@ def glueRamp (slope : Int) : List Int → Int → List Int
     let y := wrap16 (smulwb g x)
     if g + slope > 65536 then y :: xs else y :: glueRamp slope xs (g + slope)
 
-/-- The normalised pair `(conc_energy, energy)` of PLC.c:456-461. -/
+/-- The normalised pair `(conc_energy, energy)` of PLC.c:455-459. -/
 def glueNormalize (concE concSh e sh : Int) : Int × Int :=
   if sh > concSh then (shrI concE (sh - concSh).toNat, e)
   else if sh < concSh then (concE, shrI e (concSh - sh).toNat)
   else (concE, e)
 
-/-- `LZ` of PLC.c:468-469. -/
+/-- `LZ` of PLC.c:466-467. -/
 def glueLZ (concE : Int) : Int := clz32 concE - 1
 
-/-- `gain_Q16` and `slope_Q16` of PLC.c:468-479 from the normalised energies (`energy > conc_energy`):
+/-- `gain_Q16` and `slope_Q16` of PLC.c:466-476 from the normalised energies (`energy > conc_energy`):
     also the shifted `conc_energy`, which is stored back into the state. -/
 def glueGain (concE e : Int) (length : Int) : Int × Int × Int :=
   let lz := glueLZ concE
